@@ -224,6 +224,23 @@ func runC01(c *fw.Ctx, idx int) fw.Result {
 			res.Fail("projection-mismatch-binary", fmt.Sprintf("gofasta binary (exit %d) output differs from the model: %s", br.Exit, firstDiff(expected, string(ob))), files, args)
 		}
 	}
+	// and through the sampler all commands share (re-spelled flags, oddly named input files,
+	// TMPDIR elsewhere, restricted CPUs, slow pipe when writing to standard output)
+	if idx%40 == 20 && err == nil {
+		binSample(c, &res, idx, "toMultiAlign", map[string]string{"in.sam": sf.Text}, func(p func(string) string) []string {
+			a := []string{"sam", "toMultiAlign", "-s", p("in.sam"), "-t", fmt.Sprint(threads)}
+			if s != -1 {
+				a = append(a, "--start", fmt.Sprint(s))
+			}
+			if e != -1 {
+				a = append(a, "--end", fmt.Sprint(e))
+			}
+			if wrap > 0 {
+				a = append(a, "--wrap", fmt.Sprint(wrap))
+			}
+			return boolFlag(a, "pad", pad, false)
+		}, nil, []string{"", "-o"}[fw.Mix(uint64(idx)+8)%2], got)
+	}
 	if idx < 3 {
 		res.Sample = map[string]interface{}{"sam": sf.Text, "argv": argv, "observed": got}
 	}
